@@ -334,6 +334,12 @@ class BundledDriver(explore.Driver):
 OBJ_UNITS = ["meter", "kilometer / hour", "nanometer", "newton * meter", "percent", "degC", "liter"]
 
 
+def _ito_within(ureg, q):
+    with ureg.context("sp"):
+        q.ito("terahertz")
+    return q
+
+
 def _inplace_ops(ureg):
     Q = ureg.Quantity
     return [
@@ -342,8 +348,9 @@ def _inplace_ops(ureg):
         ("//= same unit", lambda q: q.__ifloordiv__(Q(2.0, q._units))),
         ("**= 2", lambda q: q.__ipow__(2)),
         ("*= number", lambda q: q.__imul__(3.0)),
-        ("ito(other unit)", lambda q: q.ito("inch") if dict(q._units) in ({"meter": 1}, {"nanometer": 1}) else q),
-        ("ito(other dimension, context)", lambda q: q.ito("terahertz", "sp") if dict(q._units) == {"nanometer": 1} else q),
+        ("ito(other unit)", lambda q: (q.ito("inch"), q)[1] if dict(q._units) in ({"meter": 1}, {"nanometer": 1}) else q),
+        ("ito(other dimension, context)", lambda q: (q.ito("terahertz", "sp"), q)[1] if dict(q._units) == {"nanometer": 1} else q),
+        ("ito(other dimension, active context)", lambda q: _ito_within(ureg, q) if dict(q._units) == {"nanometer": 1} else q),
         ("ito_root_units", lambda q: (q.ito_root_units(), q)[1]),
         ("ito_base_units", lambda q: (q.ito_base_units(), q)[1]),
         ("ito_reduced_units", lambda q: (q.ito_reduced_units(), q)[1]),
@@ -364,18 +371,21 @@ def run_object_memo(acc):
 
     for ustr in OBJ_UNITS:
         for mk, mag in (("scalar", lambda: 500.0), ("ndarray", lambda: np.array([500.0, 2.0]))):
-            for (n1, op1), (n2, op2) in itertools.product(ops, ops + [("-", None)]):
+            for (n1, op1), (n2, op2), read_between in itertools.product(ops, ops + [("-", None)], (True, False)):
+                if op2 is None and not read_between:
+                    continue
                 acc.ev()
-                acc.nt(("objmemo", ustr, mk, n1, n2))
+                acc.nt(("objmemo", ustr, mk, n1, n2, read_between))
                 q = ureg.Quantity(mag(), ustr)
                 attrs(q)  # warm the memo
-                case = {"units": ustr, "magnitude": mk, "operations": [n1, n2]}
+                case = {"units": ustr, "magnitude": mk, "operations": [n1, n2], "attributes_read_between_the_operations": read_between}
                 o = call(lambda: op1(q))
                 if o[0] != "ok" or not hasattr(o[1], "_units"):
                     continue
                 r = o[1]
                 if op2 is not None:
-                    attrs(r)
+                    if read_between:
+                        attrs(r)
                     o = call(lambda: op2(r))
                     if o[0] != "ok" or not hasattr(o[1], "_units"):
                         continue
@@ -431,7 +441,7 @@ MANIFEST = {
     "text": "All histories up to depth 3 (4 thorough) over 24 events (11 query kinds that fill RegistryCache, the per-context overlays, the base-unit cache, the parse cache and the process-wide lru_caches; 3 "
     "defines including one that collides with a prefixed reading; enabling/disabling two unit-redefining contexts; default_system = fsys / isys / None; touching a second registry that defines the same names "
     "differently with another numeric type; deepcopy) are replayed on a generated registry. In every distinct state each of 15 probes is answered on its own replayed copy and must equal the answer of a "
-    "fresh registry given the same definitions, default system and context stack; the second registry must keep its own fresh answers. The bundled registry is explored at depth 2 (3) over 14 events with 8 probes. Per-object memo: 7 units x scalar/ndarray x every ordered pair of 10 in-place operations (*=, /=, //=, **=, ito to "
+    "fresh registry given the same definitions, default system and context stack; the second registry must keep its own fresh answers. The bundled registry is explored at depth 2 (3) over 14 events with 8 probes. Per-object memo: 7 units x scalar/ndarray x every ordered pair of 11 in-place operations, with and without reading the attributes between the two, (*=, /=, //=, **=, ito to "
     "another unit, ito across dimensions through a context, ito_root/base/reduced_units) with the memo warmed before each: dimensionality, dimensionless, unitless, check and is_compatible_with must describe the new units.",
     "note": "Trusted: the definition of 'declarative state'; the fingerprint (quick runs the probe vector once per distinct fingerprint; thorough on every transition). Histories beyond the depth bound and other "
     "query kinds are not explored.",
